@@ -2348,7 +2348,13 @@ class sptensor:
                 if isinstance(entry, (int, np.integer)) and entry < 0:
                     entry = int(self.shape[dim] + entry)  # noqa: PLW2901
                 updated_key.append(entry)
-            return self._set_subtensor(updated_key, value)
+            old_state = (self.subs, self.vals, self.shape)
+            try:
+                return self._set_subtensor(updated_key, value)
+            except Exception:
+                # A rejected assignment must not leave the tensor enlarged
+                self.subs, self.vals, self.shape = old_state
+                raise
         # Case 2: Subscripts
         if access_type == IndexVariant.SUBSCRIPTS:
             return self._set_subscripts(key, value)
